@@ -48,7 +48,8 @@ Inductive input :=
 | IDynamic (primary : fetch) (fallback : option fetch)
 (* sessions: one service instance, several operations, providers scripted call by call *)
 | IHeadSeq (script : list block_answer) (evs : list head_event)
-| IDynamicSeq (calls : N) (ps : list fetch) (fs : option (list fetch)).
+| IDynamicSeq (calls : N) (ps : list fetch) (fs : option (list fetch))
+| IProposeSeq (ops : list p1_in).
 
 Inductive observed :=
 | OPropose (panicked : bool) (tr : p1_trace)
@@ -61,7 +62,8 @@ Inductive observed :=
 | OErrBody (o : outcome unit unit)
 | ODynamic (o : outcome (list N) gr_err)               (* the line that was chosen *)
 | OHeadSeq (l : list (outcome (option N) unit))        (* the execution head after the constructor and after each event, up to the first panic *)
-| ODynamicSeq (l : list (outcome (list N) gr_err)).    (* the line chosen by each call *)
+| ODynamicSeq (l : list (outcome (list N) gr_err))     (* the line chosen by each call *)
+| OProposeSeq (l : list (bool * p1_trace)).            (* per proposal: panicked?, what the mocks saw; up to the first panic *)
 
 Record case := { c_id : N; c_in : input; c_obs : observed }.
 
@@ -123,6 +125,8 @@ Definition agree (c : case) : bool :=
       list_eqb (outcome_eqb (option_eqb N.eqb) unit_eqb) l (head_session_now script evs)
   | IDynamicSeq calls ps fs, ODynamicSeq l =>
       all2 dynamic_agree l (dynamic_session (N.to_nat calls) ps fs)
+  | IProposeSeq ops, OProposeSeq l =>
+      all2 (fun o m => Bool.eqb (fst o) (fst m) && trace_eqb (snd o) (snd m)) l (propose_seq_now ops)
   | _, _ => false
   end.
 
@@ -388,6 +392,15 @@ Definition P_dynamic_session (calls : N) (ps : list fetch) (fs : option (list fe
      | _, _ => true
      end.
 
+(* every proposal of a session on its own; a panic outside the decoder domain ends the session *)
+Fixpoint P_propose_session (ops : list p1_in) (obs : list (bool * p1_trace)) : bool :=
+  match ops, obs with
+  | [], [] => true
+  | i :: ops', (p, tr) :: obs' =>
+      P_propose i p tr && (if p then match obs' with [] => true | _ => false end else P_propose_session ops' obs')
+  | _, _ => false
+  end.
+
 Definition P_b (c : case) : bool :=
   match c_in c, c_obs c with
   | IPropose i, OPropose p tr => P_propose i p tr
@@ -400,6 +413,7 @@ Definition P_b (c : case) : bool :=
   | IDynamic p f, ODynamic o => P_dynamic p f o
   | IHeadSeq script evs, OHeadSeq l => P_head_session script evs l
   | IDynamicSeq calls ps fs, ODynamicSeq l => P_dynamic_session calls ps fs l
+  | IProposeSeq ops, OProposeSeq l => P_propose_session ops l
   | _, _ => false
   end.
 
